@@ -186,6 +186,9 @@ func c15User(r *fw.Rec, id, text string, f *ir.Func, u interface{}) {
 	}
 	r.Tally("kinds", kind)
 	r.TallyN("slots", kind, len(ops))
+	if len(ops) >= 3 {
+		r.Sample(map[string]interface{}{"module": id, "instruction": fw.Trunc(before, 160), "kind": kind, "operand_slots": len(ops)})
+	}
 	// liveness
 	for i, p := range ops {
 		old := *p
